@@ -175,10 +175,12 @@ fn dispatch<P: Property>(p: &P, a: &Args) -> i32 {
         sut_release: a.sut_release.clone(),
         sut_debug: a.sut_debug.clone(),
         shim: a.shim.clone(),
-        disk_root: PathBuf::from("/dev/shm/cteepbd-sim"),
+        disk_root: disk_root(&a.verif_dir),
         runs_override: a.runs,
     };
-    let _ = std::fs::create_dir_all(&ctx.disk_root);
+    if a.cmd == "run" {
+        sweep_stale_disks(&ctx.disk_root);
+    }
     // forward the process-world paths to workers
     let mut extra: Vec<String> = Vec::new();
     for (flag, v) in [("--sut-release", &a.sut_release), ("--sut-debug", &a.sut_debug), ("--shim", &a.shim)] {
@@ -312,4 +314,34 @@ fn xmlgen(dir: &std::path::Path, n: u64, seed: u64) {
     }
     std::fs::write(dir.join("verdicts.txt"), verdicts).expect("write verdicts");
     say!("xmlgen: {} documents in {}", i, dir.display());
+}
+
+/// Root of the simulated disks: tmpfs when available, else the checkout's own build directory (never /tmp).
+fn disk_root(verif_dir: &std::path::Path) -> PathBuf {
+    let shm = PathBuf::from("/dev/shm/cteepbd-sim");
+    if std::fs::create_dir_all(&shm).is_ok() && std::fs::write(shm.join(".probe"), b"x").is_ok() {
+        let _ = std::fs::remove_file(shm.join(".probe"));
+        return shm;
+    }
+    let alt = verif_dir.join("target").join("simdisk");
+    if std::fs::create_dir_all(&alt).is_err() {
+        harness_error("no writable place for the simulated disks (/dev/shm and <verif>/target/simdisk both failed)");
+    }
+    alt
+}
+
+/// Remove what dead simulator processes (killed runs) left behind: `<pid>/` and `ctl-<pid>/`.
+fn sweep_stale_disks(root: &std::path::Path) {
+    if let Ok(rd) = std::fs::read_dir(root) {
+        for e in rd.flatten() {
+            let name = e.file_name().to_string_lossy().to_string();
+            let pid = name.strip_prefix("ctl-").or_else(|| name.strip_prefix("confirm-")).unwrap_or(&name);
+            if let Ok(pid) = pid.parse::<i32>() {
+                let alive = unsafe { libc::kill(pid, 0) } == 0;
+                if !alive {
+                    let _ = std::fs::remove_dir_all(e.path());
+                }
+            }
+        }
+    }
 }
